@@ -61,6 +61,12 @@ CALLBACK_SNIPPETS = [
     "le = arrayNew()\nrd = arrayNew(objectNew('k', 2), objectNew('k', 1))\nfunction kf(x):\n    zq = x + 0\n    return zq\nendfunction\njj = dataJoin(le, rd, 'k', 'kf(k) + off', false, objectNew('off', 0))\nsystemLog('je ' + arrayLength(jj))",
     "ld = arrayNew(objectNew('k', 1))\nre = arrayNew()\nfunction kf(x):\n    zq = x + 0\n    return zq\nendfunction\njj = dataJoin(ld, re, 'kf(k) + off', null, true, objectNew('off', 0))\nsystemLog('jr ' + arrayLength(jj))",
     "de = arrayNew()\nfunction cb(x):\n    return x\nendfunction\nr1 = dataFilter(de, 'cb(a)', objectNew('zz', 1))\ndataCalculatedField(de, 'b', 'cb(a)', objectNew('zz', 1))\nsystemLog('fe ' + arrayLength(r1))",
+    # data functions that FAIL after their row expression called back into the script (a row that is not an object, a failing second
+    # operand): the statements of the callbacks were executed and count, the failed call yields null, the script goes on
+    "function cw(x):\n    w1 = x + 1\n    w2 = w1 + 1\n    return w2\nendfunction\nfor rep in arrayNew(1, 2, 3):\n    rr = dataCalculatedField(arrayNew(1, 2), 'ff', 'cw(1) + vv', objectNew('vv', 1))\n    systemLog('bad rows ' + jsonStringify(rr))\nendfor",
+    "function cw(x):\n    w1 = x + 1\n    w2 = w1 + 1\n    return w2\nendfunction\nfor rep in arrayNew(1, 2, 3):\n    rr = dataFilter(arrayNew(7), 'cw(1) && aa', objectNew('vv', 1))\n    systemLog('bad filter ' + jsonStringify(rr))\nendfor",
+    "function cw(x):\n    w1 = x + 1\n    w2 = w1 + 1\n    return w2\nendfunction\nfor rep in arrayNew(1, 2):\n    rr = dataJoin(arrayNew(objectNew('k', 1), 5), arrayNew(objectNew('k', 1)), 'cw(k) + vv', null, false, objectNew('vv', 0))\n    systemLog('bad join ' + jsonStringify(rr))\nendfor",
+    "function cw(x):\n    w1 = x + 1\n    w2 = w1 + 1\n    return w2\nendfunction\nfor rep in arrayNew(1, 2, 3):\n    rr = dataCalculatedField(arrayNew(objectNew('a', 1), 2), 'ff', 'cw(a)', objectNew('vv', 1))\n    systemLog('second row bad ' + jsonStringify(rr))\nendfor",
 ]
 
 NONTERM_SNIPPETS = [
